@@ -60,5 +60,5 @@ LEVEL_NOTE = ("Proof for the tree the table was generated from (the quantifier i
               "fluid/solid; EDAC without inlet/outlet manager. 'Code generation succeeds' and 'a short run stays finite' "
               "are execution (every grid point for the checkers and the index-type oracle, sample for codegen in quick / "
               "all distinct in thorough, ~150 configurations generated + cythonized, ~35 compiled-and-run (configuration, domain) "
-              "variants quick / ~570 thorough), not proof.")
+              "variants quick / ~800 thorough), not proof.")
 TIMEOUT = {'quick': 1500, 'thorough': 3 * 3600}
